@@ -806,3 +806,37 @@ Proof.
     apply (Fit_proofs.vertex_skeleton_total_lemma F vpoint fcmp fnan fadd fzero bump nm sd_tol_ok (Fit.track F) teq t_zb
              t_rad is_primary close_z sumF mean_z sortP vpoint_of vcost_val vguess tclosest trs); auto.
 Qed.
+
+(* the table fact in the form the harness measures it (rel17table): bins lo..hi of the response exist and are
+   negative, and every window of the grid lies inside lo..hi *)
+Lemma windows_from_table (response : list float) (lo hi : nat) (offs las : list nat) :
+  (hi <= length response)%nat ->
+  (forall k, (lo <= k < hi)%nat -> f_neg (nth k response 0%float) = true) ->
+  (forall off la, In off offs -> In la las -> (lo <= off /\ off + la <= hi /\ 1 <= la)%nat) ->
+  response_windows_ok response offs las.
+Proof.
+  intros Hlen Hneg Hgrid off la Ho Hl. destruct (Hgrid off la Ho Hl) as (G1 & G2 & G3).
+  exists (firstn la (skipn off response)). split; [|split; auto].
+  - apply slice_some_iff. split; auto. lia.
+  - apply forallb_forall. intros x Hx. apply In_nth_error in Hx as (k & Hk).
+    assert (Hk' : (k < la)%nat).
+    { assert (X : nth_error (firstn la (skipn off response)) k <> None) by congruence.
+      apply nth_error_Some in X. rewrite firstn_length in X. lia. }
+    rewrite Ring_proofs.nth_error_firstn, Ring_proofs.nth_error_skipn in Hk by auto.
+    rewrite <- (nth_error_nth _ _ 0%float Hk). apply Hneg. lia.
+Qed.
+
+Lemma wire_windows_from_table (response : list float) :
+  (13 <= length response)%nat -> (forall k, (k < 13)%nat -> f_neg (nth k response 0%float) = true) ->
+  response_windows_ok response (range_incl 0 1) (range_incl 3 12).
+Proof.
+  intros L H. apply (windows_from_table response 0 13); auto. intros; apply H; lia.
+  intros off la Ho Hl. unfold range_incl in *. apply in_seq in Ho, Hl. lia.
+Qed.
+Lemma pad_windows_from_table (response : list float) :
+  (17 <= length response)%nat -> (forall k, (3 <= k < 17)%nat -> f_neg (nth k response 0%float) = true) ->
+  response_windows_ok response (range_incl 3 5) (range_incl 7 12).
+Proof.
+  intros L H. apply (windows_from_table response 3 17); auto.
+  intros off la Ho Hl. unfold range_incl in *. apply in_seq in Ho, Hl. lia.
+Qed.
